@@ -288,3 +288,18 @@ c('NaiveDateTime::SubsecRound__trunc_subsecs', U, requires=SUBREQ,
 c('NaiveDateTime::SubsecRound__round_subsecs', U, requires=SUBREQ,
   ensures="({ let p = pow10(if digits >= 9 { 0 } else { 9 - digits as int }); let dd = self.time.frac as int % p; dtwf(r) && nonleap(r.time) && "
           "instant(r) == (if dd == 0 { instant(self) } else if p - dd <= dd { instant(self) + (p - dd) } else { instant(self) - dd }) })")
+
+# ------------------------------------------------------------------------------------------------
+# C08  NaiveWeek (src/naive/mod.rs) -- Verus (units/week.py); weekday pieces proved by Kani
+c('Weekday::num_days_from_monday', 'kani:vk_weekday_numbering', ensures="r as int == wd_idx(*self)")
+c('Weekday::pred', 'kani:vk_weekday_cycle', ensures="wd_idx(r) == (wd_idx(*self) + 6) % 7")
+c('Weekday::succ', 'kani:vk_weekday_cycle', ensures="wd_idx(r) == (wd_idx(*self) + 1) % 7")
+c('NaiveDate::weekday', 'kani:vk_date_weekday+verus:date', requires="dwf(*self)", ensures="wd_idx(r) == weekday_of(dn(*self))")
+U = 'verus:week'
+c('NaiveWeek::new', U, ensures="r.date == date, r.start == start")
+c('NaiveDate::week', U, ensures="r.date == *self, r.start == start")
+WK = "(weekday_of(dn(self.date)) - wd_idx(self.start) + 7) % 7"
+c('NaiveWeek::checked_first_day', U, requires="dwf(self.date)",
+  ensures="({ let k = %s; 0 <= k <= 6 && (r.is_some() <==> dn(self.date) - k >= DN_MIN()) && (r.is_some() ==> dwf(r.unwrap()) && dn(r.unwrap()) == dn(self.date) - k && weekday_of(dn(r.unwrap())) == wd_idx(self.start)) })" % WK)
+c('NaiveWeek::checked_last_day', U, requires="dwf(self.date)",
+  ensures="({ let k = %s; (r.is_some() <==> dn(self.date) - k + 6 <= DN_MAX()) && (r.is_some() ==> dwf(r.unwrap()) && dn(r.unwrap()) == dn(self.date) - k + 6) })" % WK)
